@@ -99,6 +99,25 @@ def r13_1(ctx, R):
             rems = [bb for bb, t, fn in R.calls_to_body(b, rem)]
             tails = [a for (a, b_) in b.back_edges() if b_ == head]
             ok = bool(tails) and all(any(b.dominates(r, t) for r in rems) for t in tails)
+            if not ok and tails and rems:
+                # the removal may sit in an inlined helper whose verdict is re-matched: every constant-feasible path that takes a
+                # back edge passed a REMOVE site since the drain call of that iteration
+                from lib_flow import sensitive_paths as _sp, path_const_feasible as _pcf
+                ok = True
+                seen_any = False
+                try:
+                    for kind_, pth, know in _sp(b, ctx.flow(b), 2):
+                        for j in range(len(pth) - 1):
+                            if pth[j] in tails and pth[j + 1] == head:
+                                if not _pcf(b, pth[:j + 2]):
+                                    continue
+                                seen_any = True
+                                d0 = max([x for x in range(j + 1) if pth[x] == dbb] or [-1])
+                                if d0 < 0 or not any(pth[x] in rems for x in range(d0, j + 1)):
+                                    ok = False
+                except RuntimeError:
+                    ok = False
+                ok = ok and seen_any
             ctx.ob("R13.1", b, "redrain-loop-only-after-removing-a-source", ok, b.loc(head),
                    "back-edge tails %s; REMOVE sites %s" % (tails, [b.loc(r) for r in rems]))
     ctx.floor("R13.1", "merge-redrain-loops", m, 1)
